@@ -18,6 +18,9 @@ EXPLANATION = (
     'new SETUP; (d) a store that replaces the stream table is dominated, with no suspension point in between, by '
     'failing every entry of the table being replaced, so no request registered since the last close sequence is '
     'orphaned. Not decided: that requests issued afterwards are served (liveness).')
+EXPLANATION_ADDED = ('(e) reconnect() sets the event the listener waits on; each iteration waits first, skips while a connect is in progress, otherwise marks, clears, closes, connects, and the mark is taken back on every exit of the connect attempt; (f) the transport taken from the provider resolves the transport future and is connected, the closing flag is cleared before the tasks start.')
+EXPLANATION = EXPLANATION.replace(' Not decided', ' ' + EXPLANATION_ADDED + ' Not decided', 1) \
+    if ' Not decided' in EXPLANATION else EXPLANATION + ' ' + EXPLANATION_ADDED
 ASSUMPTIONS = COMMON_ASSUMPTIONS
 
 
